@@ -17,7 +17,7 @@ RULE = ("Each of the 657 named colours exhaustively (16 per document as a 4x4 bo
         "matrix, and on title, header, footnote, source, page header/footer), each of the 10 fonts on each "
         "component, and Hypothesis-generated single-section, 2-4 section and figure documents with random "
         "palettes of 1-8 colours in scalar / per-column / per-row / matrix shapes (single tables also paginated, with a page_by "
-        "or a subline_by column removed from the display). Oracle: every \\cf \\cb "
+        "or a subline_by column removed from the display); a fifth of the generated documents and an enumerated family carry a HISTORY: rendered first without the colours of some components, which are then coloured in place (attributes of doc.rtf_*) or through model_copy(update=...), and rendered again - the oracle reads the second rendering against the colours requested now. Oracle: every \\cf \\cb "
         "\\chcbpat \\brdrcf parameter indexes an existing \\colortbl entry; for every sentinel-tagged element the "
         "entry's RGB equals the frozen RGB of the requested colour (0/absent only for ''/black); a colour "
         "table exists whenever a non-default colour is requested; every \\fN resolves to a \\fonttbl entry whose "
@@ -160,7 +160,29 @@ def _doc(draw):
         rec["page_header"] = draw(_text_comp("@P", pal, 1))
     if draw(st.integers(0, 9)) < 3:
         rec["page_footer"] = draw(_text_comp("@Q", pal, 1))
+    if draw(st.integers(0, 9)) < 2:
+        _add_recolour(draw, rec)
     return rec
+
+
+def _coloured_components(rec):
+    out = [c for c in ("title", "subline", "footnote", "source", "page_header", "page_footer")
+           if isinstance(rec.get(c), dict) and any("color" in k for k in rec[c])]
+    secs = rec.get("sections", [])
+    if any(any("color" in k for k in s.get("body", {})) for s in secs):
+        out.append("body")
+    if secs and all(isinstance(s.get("headers"), list) for s in secs) and any("color" in k for s in secs for h in s["headers"] if h for k in h):
+        out.append("headers")
+    return out
+
+
+def _add_recolour(draw, rec):
+    """History: the document was rendered before these components had their colours; they get them in place (or through
+    model_copy(update=...)) and the document is rendered again - the colours requested NOW are the recipe's."""
+    have = _coloured_components(rec)
+    if have:
+        strip = draw(st.lists(st.sampled_from(have), min_size=1, max_size=len(have), unique=True))
+        rec["recolour"] = {"strip": sorted(strip), "mode": draw(st.sampled_from(["in_place", "in_place", "model_copy"]))}
 
 
 def strategy(tier):
@@ -192,6 +214,25 @@ def enumerate_cases(tier):
         yield {"kind": "multi", "page": {"nrow": 50}, "header_layout": "nested",
                "sections": [{"df": {"cols": cols}, "body": {"text_color": c1}, "headers": "default"},
                             {"df": {"cols": cols2}, "body": {"text_background_color": [c2, c1]}, "headers": "default"}]}
+    # histories: rendered first without the colours of one component (or of all), coloured in place / by model_copy, rendered again
+    cols = [{"name": f"@N0x{j}", "dtype": "str", "values": [f"r{i}c{j}" for i in range(3)]} for j in range(2)]
+    cols1 = [{"name": f"@N1x{j}", "dtype": "str", "values": [f"r{i}c{j}" for i in range(2)]} for j in range(2)]
+    base = {"title": {"text": ["@T0"], "text_color": "red"}, "footnote": {"text": ["@F0"], "text_background_color": "gold"},
+            "source": {"text": ["@S0"], "text_color": "blue", "as_table": True, "border_color_top": "purple"},
+            "page_header": {"text": ["@P0"], "text_color": "darkgreen"}}
+    docs = [dict(base, kind="table", page={"nrow": 50},
+                 sections=[{"df": {"cols": cols}, "body": {"text_color": [["orange", "cyan"], ["", "red"], ["navy", "navy"]], "border_color_left": "gray50"},
+                            "headers": [{"text": ["@H0.0", "@H0.1"], "text_color": "firebrick3"}]}]),
+            dict(base, kind="multi", page={"nrow": 50}, header_layout="nested",
+                 sections=[{"df": {"cols": cols}, "body": {"text_color": "orange"}, "headers": [{"text": ["@H0.0", "@H0.1"], "text_background_color": "gray90"}]},
+                           {"df": {"cols": cols1}, "body": {"text_background_color": ["pink", "tan"]}, "headers": [{"text": ["@H1.0", "@H1.1"]}]}]),
+            {"kind": "figure", "page": {"nrow": 40}, "figure": {"files": [png]}, "title": {"text": ["@T0"], "text_color": "red"},
+             "footnote": {"text": ["@F0"], "as_table": False, "text_color": "blue"}}]
+    for dc in docs:
+        have = _coloured_components(dc)
+        for strip in [[c] for c in have] + [have]:
+            for mode in ("in_place", "model_copy"):
+                yield dict(dc, recolour={"strip": sorted(strip), "mode": mode})
     # every font on every component
     for f in range(1, 11):
         cols = [{"name": "@N0x0", "dtype": "str", "values": ["r0c0", "r1c0"]}]
@@ -369,6 +410,7 @@ def check(case) -> Result:
                                    text_attr_at(spec.get("text_font"), ln, 1))
     if cx.requested and not d.has_colortbl:
         res.fail("colour_table", f"missing/{kind}", f"requested {sorted(cx.requested)[:4]}")
-    res.labels = ["kind=" + kind, f"colours={min(len(cx.requested), 5)}", "colortbl" if d.has_colortbl else "no_colortbl"]
+    res.labels = ["kind=" + kind, f"colours={min(len(cx.requested), 5)}", "colortbl" if d.has_colortbl else "no_colortbl",
+                  "history=" + (case["recolour"]["mode"] if case.get("recolour") else "fresh")]
     res.nontrivial = len(cx.requested) >= 2 or (kind != "table" and len(cx.requested) >= 1)
     return res
